@@ -597,6 +597,11 @@ def m_prim_clone(c):
     return deref(c.st, c.args[0])
 
 
+@model('<bool as Default>::default')
+def m_bool_default(c):
+    return z3.BoolVal(False)
+
+
 @pattern(r'^<(u8|u16|u32|u64|u128|usize|i8|i16|i32|i64|i128|isize) as Default>::default$')
 def m_int_default(c):
     from .rtypes import INT
